@@ -1,5 +1,6 @@
 SPECIFICATION Spec
 CONSTANTS
-  Dev = {}
   DevA = {}
+  MaxLen = 6
+INVARIANTS ClosedInv TrailingInv MinimalInv
 CHECK_DEADLOCK FALSE
